@@ -69,12 +69,14 @@ const (
 )
 
 func (i *streamIter) parseNext(r *logstorage.Record) (bool, error) {
-	if _, err := io.ReadFull(i.rd, i.header[:]); err != nil {
-		switch err {
-		case io.EOF, io.ErrUnexpectedEOF:
+	if n, err := io.ReadFull(i.rd, i.header[:]); err != nil {
+		switch {
+		case err == io.EOF, err == io.ErrUnexpectedEOF && n > 0:
 			// Handle missing header gracefully, docker-cli does the same thing.
 			return false, nil
 		default:
+			// Notice that reader itself may return io.ErrUnexpectedEOF: HTTP transport
+			// does, if response body is cut. It is not a clean end of the stream.
 			return false, errors.Wrap(err, "read header")
 		}
 	}
